@@ -287,6 +287,11 @@ def normalize(vectors, bilinear_form=None):
         respect to the given bilinear form).
 
     """
+    if np.asarray(vectors).dtype.kind in "iub":
+        # integers cannot hold the normalized vectors (and the
+        # division below writes into its argument)
+        vectors = np.array(vectors, dtype="float64")
+
     sq_norms = normsq(vectors, bilinear_form)
 
     abs_norms = np.sqrt(np.abs(np.expand_dims(sq_norms, axis=-1)))
